@@ -4,6 +4,10 @@ import PetgraphModel.Proofs.C13W2Top
 import PetgraphModel.Proofs.C13W2Spec
 import PetgraphModel.Proofs.C13W2Iso
 import PetgraphModel.Proofs.C13W3Relabel
+import PetgraphModel.Proofs.C13W4Check
+import PetgraphModel.Proofs.C13W4Relabel
+import PetgraphModel.Proofs.C13W4Link
+import PetgraphModel.Proofs.C13W4Driver
 /-
 C13 — the VF2 family agrees with the definition of (sub)graph isomorphism.
 
@@ -29,6 +33,13 @@ What is proved here, for ALL graphs, weights and predicates:
   (`…_bounded`; true for all graphs on ≤ 9 nodes), the empty pattern is covered (`C13_vf2_empty_pattern`), the
   iterator's end flag is always `true` (`C13_vf2_iter_flag`), and the model's answers are invariant under
   relabeling the concrete indices (`C13_vf2_relabel_invariant`, `…_iter`).
+
+  Wave 4 turns every hypothesis about the concrete case into a run-time check of the driver (section "run-time
+  checks of the hypotheses": `sideFail`, the fuel-reporting wrappers `isoModelR` / `subModelR` / `iterModelR`)
+  and proves the exactness of every answer the driver compares with NO fuel or size hypothesis left
+  (`C13_vf2_sub_checked`, `C13_vf2_iso_checked`, `C13_vf2_iter_checked`), their relabeling invariance incl. the
+  iterator's set of mappings and its `None` (`C13_vf2_relabel_invariant_checked`), and spells the `_matching`
+  variants out for an arbitrary compatibility relation (`C13_vf2_matching_*`).
 
 VF2 itself (petgraph's search) is tied to this reference per run: `./check C13` compares the implementation's
 answers with the oracle (spec level) and with the mirror model (exactly, including the yield order).
@@ -776,6 +787,381 @@ theorem C13_vf2_relabel_invariant_iter (I I' : Inst) (ok : InstOk I) (ok' : Inst
 
 end Vf2W3
 
+/-! ### wave 4: run-time checks of the hypotheses
+
+Every hypothesis of the theorems above that concerns the concrete case is evaluated by the driver
+(`Driver/C13.lean`) on every round / query / model call it judges:
+
+| hypothesis | executable check (driver) | theorem |
+|---|---|---|
+| `P.Ok` (well-formed simple graphs of one edge type) | `problemOkB P` | `C13_problemOk_check` |
+| `CGOk g0`, `CGOk g1` | `cgOkB` | `C13_cgOk_check` |
+| `I.g0.directed = I.g1.directed` | `!=` on the flags | `C13_sideFail_check` |
+| `ECountOk g0`, `ECountOk g1` | `eCountOkB` | `C13_eCountOk_check` |
+| duplicate-free `Incoming` lists of g0 | `inNodupB` | `C13_inNodup_check` |
+| `abs` is a permutation of `0..n-1` (both) | `absPermB` | `C13_absPerm_check` |
+| all of the above on the instance | `sideFail I = none` | `C13_sideFail_check`, `C13_sideFail_exact` |
+| no `next()` call out of fuel (`hfuel`, `iterFuelOk`, `explicitBound I ≤ bigFuel`) | the reporting wrappers `isoModelR` / `subModelR` / `iterModelR` return `some _` | `C13_fuel_check` |
+| the instance `I` given to the model poses the abstract problem `P` given to the oracle (`Link I P`) | `linkFail I P = none` | `C13_link_check` |
+| all of it, as the driver evaluates it before judging a query | `queryFail d nm em semantic = none` | `C13_driver_query_check` |
+
+The FUEL: instead of bounding the size of the graphs a priori (`explicitBound I ≤ bigFuel`, i.e. ≤ 9 nodes),
+the driver checks per call that the call RETURNED within `bigFuel` iterations; by fuel monotonicity a returned
+call is the call of the unbounded loop, so the exactness theorems `C13_vf2_*_checked` below hold for graphs of
+ANY size, with no fuel hypothesis left.  A call that does not return is reported (`none` → the driver's
+`SPECFAIL generator left the proved range: FUEL …`), never turned into `false` / "iterator ended"; it cannot
+happen while `explicitBound I ≤ fuel` (`C13_vf2_fuel_never_reported`). -/
+
+section Checks
+open PetgraphModel.C13.Vf2
+
+theorem C13_problemOk_check (P : Problem) (h : problemOkB P = true) : P.Ok := (C13_problemOkB_iff P).mp h
+
+theorem C13_cgOk_check (g : CG) (h : cgOkB g = true) : CGOk g := cgOkB_sound h
+
+theorem C13_eCountOk_check (g : CG) (h : eCountOkB g = true) : ECountOk g := (eCountOkB_iff g).mp h
+
+theorem C13_inNodup_check (g : CG) (h : cgOkB g = true) (hb : inNodupB g = true) :
+    g.directed = true → ∀ i, (g.inNb i).Nodup := inNodupB_sound h hb
+
+theorem C13_absPerm_check (g : CG) (h : absPermB g = true) : g.abs.Perm (List.range g.n) := (absPermB_iff g).mp h
+
+/-- the bundle the driver evaluates before every query: all side conditions of the exactness theorems -/
+theorem C13_sideFail_check (I : Inst) (h : sideFail I = none) :
+    InstOk I ∧ I.g0.abs.Perm (List.range I.g0.n) ∧ I.g1.abs.Perm (List.range I.g1.n) := sideFail_none h
+
+/-- … and the check is exact: it fails only if one of them really fails -/
+theorem C13_sideFail_exact (I : Inst) :
+    sideFail I = none ↔ InstOk I ∧ I.g0.abs.Perm (List.range I.g0.n) ∧ I.g1.abs.Perm (List.range I.g1.n) := by
+  constructor
+  · exact sideFail_none
+  · intro h
+    cases hs : sideFail I with
+    | none => rfl
+    | some w => exact absurd h (sideFail_some hs)
+
+/-- the FUEL check (the model's own fuel `bigFuel`): an answer the reporting wrappers return is the answer of
+the model's wrappers, and the fuel hypotheses of the wave-2 theorems (`hfuel`, `iterFuelOk`) hold for it —
+unless the early size test answered and no `next()` call was made at all -/
+theorem C13_fuel_check (I : Inst) :
+    (∀ b, isoModelR I bigFuel = some b → isoModel I = b ∧
+      ((I.g0.n != I.g1.n || I.g0.ecount != I.g1.ecount) = true ∨
+       (isomorphisms I false bigFuel (M.init I)).isSome = true)) ∧
+    (∀ b, subModelR I bigFuel = some b → subModel I = b ∧
+      ((decide (I.g0.n > I.g1.n) || decide (I.g0.ecount > I.g1.ecount)) = true ∨
+       (isomorphisms I true bigFuel (M.init I)).isSome = true)) ∧
+    (∀ r, iterModelR I bigFuel = some r → iterModel I = r ∧ (r = none ∨ iterFuelOk I = true)) := by
+  have rm := reported_eq_model I
+  refine ⟨fun b h => ⟨rm.1 b h, ?_⟩, fun b h => ⟨rm.2.1 b h, ?_⟩, fun r h => ⟨rm.2.2 r h, ?_⟩⟩
+  · unfold isoModelR at h
+    by_cases hc : (I.g0.n != I.g1.n || I.g0.ecount != I.g1.ecount) = true
+    · exact Or.inl hc
+    · rw [if_neg hc] at h
+      exact Or.inr (tryMatchR_some h).1
+  · unfold subModelR at h
+    by_cases hc : (decide (I.g0.n > I.g1.n) || decide (I.g0.ecount > I.g1.ecount)) = true
+    · exact Or.inl hc
+    · rw [if_neg hc] at h
+      exact Or.inr (tryMatchR_some h).1
+  · have hm := rm.2.2 r h
+    cases r with
+    | none => exact Or.inl rfl
+    | some x =>
+      right
+      have hne : iterModel I ≠ none := by rw [hm]; simp
+      cases hf : iterFuelOk I with
+      | true => rfl
+      | false =>
+        have := (iterModelR_bigFuel I).2.2 hne hf
+        rw [this] at h
+        cases h
+
+/-- `FUEL` is reported only when a call really does not return: never with `explicitBound I ≤ fuel` — in
+particular never at `bigFuel` for graphs on at most 9 nodes -/
+theorem C13_vf2_fuel_never_reported (I : Inst) (h0 : cgOkB I.g0 = true) (h1 : cgOkB I.g1 = true)
+    (hd : I.g0.directed = I.g1.directed) :
+    (∀ fuel, explicitBound I ≤ fuel →
+      (isoModelR I fuel).isSome = true ∧ (subModelR I fuel).isSome = true ∧ (iterModelR I fuel).isSome = true) ∧
+    (I.g0.n ≤ 9 → I.g1.n ≤ 9 →
+      (isoModelR I bigFuel).isSome = true ∧ (subModelR I bigFuel).isSome = true ∧
+      (iterModelR I bigFuel).isSome = true) :=
+  ⟨fun _ hb => never_reported (cgOkB_sound h0) (cgOkB_sound h1) hd hb,
+   fun a b => never_reported (cgOkB_sound h0) (cgOkB_sound h1) hd (C13_vf2_explicitBound_small I a b)⟩
+
+/-- a reported answer does not depend on the fuel: it is the answer of the fuel-generic wrapper for every
+larger fuel (the unbounded loop of the Rust code) -/
+theorem C13_vf2_reported_fuel_independent (I : Inst) (fuel : Nat) :
+    (∀ b, isoModelR I fuel = some b → ∀ F, fuel ≤ F → isoModelF I F = b ∧ isoModelR I F = some b) ∧
+    (∀ b, subModelR I fuel = some b → ∀ F, fuel ≤ F → subModelF I F = b ∧ subModelR I F = some b) ∧
+    (∀ r, iterModelR I fuel = some r → ∀ F, fuel ≤ F → iterModelF I F = r ∧ iterModelR I F = some r) :=
+  ⟨fun _ h F hF => ⟨isoModelR_some h F hF, isoModelR_mono h hF⟩,
+   fun _ h F hF => ⟨subModelR_some h F hF, subModelR_mono h hF⟩,
+   fun _ h F hF => ⟨iterModelR_some h F hF, iterModelR_mono h hF⟩⟩
+
+/-- EXACTNESS of every answer of `is_isomorphic_subgraph[_matching]` the driver compares: all side conditions
+are run-time checks (`sideFail I = none`, the call returned), no bound on the size of the graphs -/
+theorem C13_vf2_sub_checked (I : Inst) (hs : sideFail I = none) (fuel : Nat) (b : Bool)
+    (h : subModelR I fuel = some b) : b = true ↔ SubIso I.problem := by
+  obtain ⟨ok, _, _⟩ := sideFail_none hs
+  have hF := subModelR_some h (max fuel (explicitBound I)) (Nat.le_max_left _ _)
+  rw [← hF]
+  exact C13_vf2_sub_iff_fuel I ok.h0 ok.h1 ok.hd ok.e0 ok.e1 ok.hin _ (Nat.le_max_right _ _)
+
+/-- EXACTNESS of every answer of `is_isomorphic[_matching]` the driver compares -/
+theorem C13_vf2_iso_checked (I : Inst) (hs : sideFail I = none) (fuel : Nat) (b : Bool)
+    (h : isoModelR I fuel = some b) : b = true ↔ Iso I.problem := by
+  obtain ⟨ok, _, _⟩ := sideFail_none hs
+  have hF := isoModelR_some h (max fuel (explicitBound I)) (Nat.le_max_left _ _)
+  rw [← hF]
+  exact C13_vf2_iso_iff_fuel I ok.h0 ok.h1 ok.hd ok.e0 ok.e1 ok.hin _ (Nat.le_max_right _ _)
+
+/-- EXACTNESS of every answer of the drained `subgraph_isomorphisms_iter` the driver compares: `None` only if
+there is no embedding; otherwise the end flag is `true`, the yielded vectors are pairwise different and are
+exactly the (abstract vectors of the) valid complete mappings = the embeddings of the specification -/
+theorem C13_vf2_iter_checked (I : Inst) (hs : sideFail I = none) (fuel : Nat)
+    (r : Option (List (List Nat) × Bool)) (h : iterModelR I fuel = some r) :
+    (r = none → ¬ SubIso I.problem) ∧
+    ∀ vs fin, r = some (vs, fin) →
+      fin = true ∧ vs.Nodup ∧ (∀ v, v ∈ vs ↔ ∃ mp, Final I mp ∧ v = toAbstract I mp) ∧
+      (∀ f, Embeds I.problem f → toAbstract I (vecOf I f) ∈ vs) ∧
+      (∀ v ∈ vs, ∃ mp, Embeds I.problem (vecFun mp) ∧ v = toAbstract I mp) := by
+  obtain ⟨ok, p0, p1⟩ := sideFail_none hs
+  have ok0 := cgOkB_sound ok.h0
+  have ok1 := cgOkB_sound ok.h1
+  have hF := iterModelR_some h (max fuel (explicitBound I)) (Nat.le_max_left _ _)
+  constructor
+  · rintro rfl
+    have hb : iterModel I = none := by
+      unfold iterModelF at hF
+      unfold iterModel
+      by_cases hc : (decide (I.g0.n > I.g1.n) || decide (I.g0.ecount > I.g1.ecount)) = true
+      · rw [if_pos hc]
+      · rw [if_neg hc] at hF; cases hF
+    exact C13_vf2_none_complete_spec I ok.h0 ok.h1 ok.hd ok.e0 ok.e1 hb
+  · rintro vs fin rfl
+    obtain ⟨hfin, hnd, hmem⟩ := C13_vf2_iter_exact_fuel I ok.h0 ok.h1 ok.hd p0 p1 ok.hin _
+      (Nat.le_max_right _ _) vs fin hF
+    refine ⟨hfin, hnd, hmem, fun f e => (hmem _).mpr ⟨_, Final.of_embeds ok0 ok1 e, rfl⟩, ?_⟩
+    intro v hv
+    obtain ⟨mp, hf, rfl⟩ := (hmem v).mp hv
+    exact ⟨mp, hf.embeds ok0 ok1, rfl⟩
+
+/-- RELABELING INVARIANCE of everything the driver compares, the iterator's SET of mappings included, for
+graphs of any size: an instance and a copy with relabeled concrete indices (`Relabeled`, reporting vectors
+carried along), both passing the run-time checks, get the same Boolean answers; `subgraph_isomorphisms_iter`
+returns `None` on both or on neither, and otherwise yields the same abstract vectors, each exactly once (in a
+possibly different order) -/
+theorem C13_vf2_relabel_invariant_checked (I I' : Inst) (hs : sideFail I = none) (hs' : sideFail I' = none)
+    (σ0 τ0 σ1 τ1 : Nat → Nat) (r : Relabeled I I' σ0 τ0 σ1 τ1) (fuel fuel' : Nat) :
+    (∀ b b', subModelR I fuel = some b → subModelR I' fuel' = some b' → b' = b) ∧
+    (∀ b b', isoModelR I fuel = some b → isoModelR I' fuel' = some b' → b' = b) ∧
+    (∀ res res', iterModelR I fuel = some res → iterModelR I' fuel' = some res' →
+      (res' = none ↔ res = none) ∧
+      ∀ vs fin vs' fin', res = some (vs, fin) → res' = some (vs', fin') →
+        vs'.Perm vs ∧ fin = true ∧ fin' = true) := by
+  obtain ⟨ok, p0, p1⟩ := sideFail_none hs
+  obtain ⟨ok', p0', p1'⟩ := sideFail_none hs'
+  have wf0 := toMGraph_wf (cgOkB_sound ok.h0)
+  have wf1 := toMGraph_wf (cgOkB_sound ok.h1)
+  have inv := C13_relabel_invariant I.problem σ0 τ0 σ1 τ1 wf0 wf1 r.hl0' r.hl1'
+  refine ⟨fun b b' h h' => ?_, fun b b' h h' => ?_, fun res res' h h' => ?_⟩
+  · apply Bool.eq_of_iff'
+    rw [C13_vf2_sub_checked I' hs' fuel' b' h', C13_vf2_sub_checked I hs fuel b h, r.same.subIso_iff]
+    exact inv.2.1
+  · apply Bool.eq_of_iff'
+    rw [C13_vf2_iso_checked I' hs' fuel' b' h', C13_vf2_iso_checked I hs fuel b h, r.same.iso_iff]
+    exact inv.1
+  · have hF := iterModelR_some h (max fuel (explicitBound I)) (Nat.le_max_left _ _)
+    have hF' := iterModelR_some h' (max fuel' (explicitBound I')) (Nat.le_max_left _ _)
+    constructor
+    · rw [← hF, ← hF']
+      exact r.iterModelF_none_iff ok ok' _ _
+    · rintro vs fin vs' fin' rfl rfl
+      refine ⟨iterModelF_relabel r (cgOkB_sound ok.h0) (cgOkB_sound ok.h1) ok.hd (inNodupB_sound ok.h0 ok.hin)
+        (cgOkB_sound ok'.h0) (cgOkB_sound ok'.h1) ok'.hd (inNodupB_sound ok'.h0 ok'.hin) p0 p1 p0' p1'
+        (Nat.le_max_right _ _) (Nat.le_max_right _ _) hF hF', ?_, ?_⟩
+      · exact (C13_vf2_iter_flag I ok.h0 ok.h1 ok.hd p0 p1 ok.hin).2 _ vs fin hF
+      · exact (C13_vf2_iter_flag I' ok'.h0 ok'.h1 ok'.hd p0' p1' ok'.hin).2 _ vs' fin' hF'
+
+/-- relabeling keeps `node_count()` and `edge_count()` of both arguments (so the early size rejections of the
+wrappers are relabeling-invariant) -/
+theorem C13_vf2_relabel_counts (I I' : Inst) (ok : InstOk I) (ok' : InstOk I') (σ0 τ0 σ1 τ1 : Nat → Nat)
+    (r : Relabeled I I' σ0 τ0 σ1 τ1) :
+    I'.g0.n = I.g0.n ∧ I'.g0.ecount = I.g0.ecount ∧ I'.g1.n = I.g1.n ∧ I'.g1.ecount = I.g1.ecount :=
+  r.counts_eq ok ok'
+
+/-! #### the `_matching` variants: an ARBITRARY compatibility relation
+
+`Inst.nm`, `Inst.em : Int → Int → Bool` are arbitrary (not symmetric, not transitive, not related to equality);
+all theorems above are stated for every `Inst`.  Spelled out: with the matchers enabled the problem an instance
+poses carries exactly the supplied predicates (first argument: the weight in g0, second: the weight in g1), with
+the matchers disabled (the plain functions) it carries none; a valid complete mapping (`Final`) of a
+`_matching` call is a total injective map that preserves adjacency and non-adjacency, satisfies `nm` on every
+matched pair of nodes and `em` on the weights of every matched pair of edges (both weights are found); and the
+answers the driver compares are exactly the existence / the set of such mappings. -/
+
+theorem C13_vf2_matching_problem (I : Inst) :
+    (I.semantic = true → I.problem.nm = I.nm ∧ I.problem.em = I.em) ∧
+    (I.semantic = false → I.problem.nm = (fun _ _ => true) ∧ I.problem.em = (fun _ _ => true)) := by
+  constructor
+  · intro hs
+    constructor <;> (funext x y; simp [Inst.problem, hs])
+  · intro hs
+    constructor <;> (funext x y; simp [Inst.problem, hs])
+
+/-- what a yielded vector of a `_matching` call is, for arbitrary predicates -/
+theorem C13_vf2_matching_final (I : Inst) (hs : I.semantic = true) (mp : List (Option Nat)) :
+    Final I mp ↔
+      mp.length = I.g0.n ∧
+      (∀ i, i < I.g0.n → ∃ j, mp[i]? = some (some j) ∧ j < I.g1.n) ∧
+      (∀ i i' j : Nat, mp[i]? = some (some j) → mp[i']? = some (some j) → i = i') ∧
+      (∀ i j i' j', (mp[i]?).getD none = some j → (mp[i']?).getD none = some j' →
+        I.g0.adj i i' = I.g1.adj j j' ∧
+        I.nm ((I.g0.nw[i]?).getD 0) ((I.g1.nw[j]?).getD 0) = true ∧
+        (I.g0.adj i i' = true →
+          ∃ w w', I.g0.ew i i' = some w ∧ I.g1.ew j j' = some w' ∧ I.em w w' = true)) := by
+  have edge_iff : ∀ i i' j j', edgeEq I i i' j j' = true ↔
+      ∃ w w', I.g0.ew i i' = some w ∧ I.g1.ew j j' = some w' ∧ I.em w w' = true := by
+    intro i i' j j'
+    unfold edgeEq
+    cases I.g0.ew i i' <;> cases I.g1.ew j j' <;> simp
+  constructor
+  · intro f
+    refine ⟨f.len, f.total, f.inj, ?_⟩
+    intro i j i' j' h h'
+    refine ⟨f.ok.adj i j i' j' h h', f.ok.node hs i j h, fun ha => ?_⟩
+    exact (edge_iff i i' j j').mp (f.ok.edge hs i j i' j' h h' ha)
+  · rintro ⟨hl, ht, hi, hk⟩
+    refine ⟨hl, ht, hi, ⟨?_, ?_, ?_⟩⟩
+    · intro i j i' j' h h'
+      exact (hk i j i' j' h h').1
+    · intro _ i j h
+      exact (hk i j i j h h).2.1
+    · intro _ i j i' j' h h' ha
+      exact (edge_iff i i' j j').mpr ((hk i j i' j' h h').2.2 ha)
+
+/-- the answers of the `_matching` variants (and of the plain functions) the driver compares, in terms of
+valid complete mappings, for arbitrary predicates -/
+theorem C13_vf2_matching_exact (I : Inst) (hs : sideFail I = none) (fuel : Nat) :
+    (∀ b, subModelR I fuel = some b → (b = true ↔ ∃ mp, Final I mp)) ∧
+    (∀ b, isoModelR I fuel = some b → (b = true ↔ ∃ mp, Final I mp ∧ I.g0.n = I.g1.n)) ∧
+    (∀ r, iterModelR I fuel = some r →
+      (r = none → ¬ ∃ mp, Final I mp) ∧
+      ∀ vs fin, r = some (vs, fin) → vs.Nodup ∧ ∀ v, v ∈ vs ↔ ∃ mp, Final I mp ∧ v = toAbstract I mp) := by
+  obtain ⟨ok, p0, p1⟩ := sideFail_none hs
+  have ok0 := cgOkB_sound ok.h0
+  have ok1 := cgOkB_sound ok.h1
+  have sub_iff : SubIso I.problem ↔ ∃ mp, Final I mp :=
+    ⟨fun ⟨f, e⟩ => ⟨_, Final.of_embeds ok0 ok1 e⟩, fun ⟨mp, hf⟩ => ⟨_, hf.embeds ok0 ok1⟩⟩
+  refine ⟨fun b h => ?_, fun b h => ?_, fun r h => ?_⟩
+  · rw [C13_vf2_sub_checked I hs fuel b h, sub_iff]
+  · rw [C13_vf2_iso_checked I hs fuel b h]
+    constructor
+    · rintro ⟨f, e, honto⟩
+      have hf := Final.of_embeds ok0 ok1 e
+      refine ⟨_, hf, ?_⟩
+      apply node_count_eq_of_onto hf (f := f)
+      intro b hb
+      obtain ⟨a, ha, hab⟩ := honto b (by simpa [Inst.problem, CG.toMGraph] using hb)
+      exact ⟨a, by simpa [Inst.problem, CG.toMGraph] using ha, hab⟩
+    · rintro ⟨mp, hf, hn⟩
+      refine ⟨_, hf.embeds ok0 ok1, ?_⟩
+      intro b hb
+      simp only [Inst.problem, CG.toMGraph, List.mem_range] at hb ⊢
+      obtain ⟨i, hi, hm⟩ := hf.onto hn b hb
+      exact ⟨i, hi, by simp [hm]⟩
+  · have := C13_vf2_iter_checked I hs fuel r h
+    refine ⟨fun hr => ?_, fun vs fin hr => ?_⟩
+    · rw [← sub_iff]; exact this.1 hr
+    · obtain ⟨_, hnd, hmem, _, _⟩ := this.2 vs fin hr
+      exact ⟨hnd, hmem⟩
+
+/-! #### the link between the oracle's problem and the model's instance -/
+
+/-- a passed link check: adjacency, edge weights and node weights of the concrete graphs, read through the
+index labelings, are those of the abstract graphs -/
+theorem C13_link_check (I : Inst) (P : Problem) (h : linkFail I P = none) :
+    LinkG I.g0 P.g0 P.nw0 ∧ LinkG I.g1 P.g1 P.nw1 := by
+  have := linkFail_none h
+  simp only [linkOkB, Bool.and_eq_true] at this
+  exact ⟨linkGraphB_sound this.1, linkGraphB_sound this.2⟩
+
+/-- under the link the two specifications coincide: an embedding of the abstract problem, re-indexed, is a
+valid complete mapping of the instance and is reported as the vector of that embedding; a valid complete mapping
+of the instance, read in abstract ids, is an embedding and is reported as its vector; so `SubIso` / `Iso` of
+the abstract problem are the existence of a valid complete mapping (a bijective one), and the oracle's list
+is exactly the set of vectors reported for the valid complete mappings -/
+theorem C13_link_spec (I : Inst) (P : Problem) (L : Link I P) :
+    (∀ f, Embeds P f → Final I (vecOf I (Link.fwd I f)) ∧
+      toAbstract I (vecOf I (Link.fwd I f)) = P.g0.nodes.map f) ∧
+    (∀ mp, Final I mp → Embeds P (Link.bwd I mp) ∧ toAbstract I mp = P.g0.nodes.map (Link.bwd I mp)) ∧
+    (SubIso P ↔ ∃ mp, Final I mp) ∧ (Iso P ↔ ∃ mp, Final I mp ∧ I.g0.n = I.g1.n) ∧
+    (∀ v, v ∈ subIsoAll P ↔ ∃ mp, Final I mp ∧ v = toAbstract I mp) :=
+  ⟨fun _ e => ⟨L.forward e, L.toAbstract_forward e⟩, fun _ hf => ⟨L.backward hf, L.toAbstract_final hf⟩,
+   L.subIso_iff, L.iso_iff, L.mem_subIsoAll⟩
+
+/-- THE DRIVER'S BUNDLE: when `queryFail` passes (and it is evaluated before every query is judged, with the
+predicates `step` passes on: `parsePreds_ok`), the abstract pair satisfies the side conditions of the property,
+the concrete instance satisfies every side condition of the exactness theorems, and the two pose the same
+problem -/
+theorem C13_driver_query_check (d : DState) (nm em : Int → Int → Bool) (semantic : Bool)
+    (h : queryFail d nm em semantic = none) (hp : PredsOk nm em semantic) :
+    (problem d nm em).Ok ∧ sideFail (mkInst d nm em semantic) = none ∧
+    Link (mkInst d nm em semantic) (problem d nm em) :=
+  queryFail_none h hp
+
+theorem C13_driver_preds (rest : List String) (nm em : Int → Int → Bool)
+    (h : parsePreds rest = some (nm, em)) : PredsOk nm em (!rest.isEmpty) := parsePreds_ok h
+
+/-- MODEL = ORACLE on every judged query.  With the run-time checks passed, whatever the mirror model reports
+(it did not run out of fuel) is what the definitional oracle computes on the abstract pair: the same Booleans;
+`None` exactly when the oracle's list is empty; otherwise the end flag is `true` and the reported vectors are a
+permutation of the oracle's list — so the spec-level judge accepts the model's own answer.  (Consequently an
+implementation answer that equals the model's is correct by theorem, and a Boolean `MODELDIFF` is impossible.) -/
+theorem C13_checked_model_eq_oracle (I : Inst) (P : Problem) (hs : sideFail I = none) (L : Link I P) (fuel : Nat) :
+    (∀ b, subModelR I fuel = some b → b = subIsoB P ∧ judgeSub P b = true) ∧
+    (∀ b, isoModelR I fuel = some b → b = isoB P ∧ judgeIso P b = true) ∧
+    (∀ r, iterModelR I fuel = some r →
+      (r = none → subIsoAll P = []) ∧
+      (∀ vs fin, r = some (vs, fin) → fin = true ∧ vs.Perm (subIsoAll P)) ∧
+      judgeIter P (r.map (·.1)) = true) := by
+  have mx := C13_vf2_matching_exact I hs fuel
+  have sB := subIsoB_iff P L.wf0 L.wf1.1
+  have iB := isoB_iff P L.wf0 L.wf1.1
+  refine ⟨fun b h => ?_, fun b h => ?_, fun r h => ?_⟩
+  · have : b = subIsoB P := by
+      apply Bool.eq_of_iff'
+      rw [mx.1 b h, sB, L.subIso_iff]
+    exact ⟨this, by simp [judgeSub, this]⟩
+  · have : b = isoB P := by
+      apply Bool.eq_of_iff'
+      rw [mx.2.1 b h, iB, L.iso_iff]
+    exact ⟨this, by simp [judgeIso, this]⟩
+  · have hi := mx.2.2 r h
+    have hnone : r = none → subIsoAll P = [] := by
+      intro hr
+      have : ¬ SubIso P := by rw [L.subIso_iff]; exact hi.1 hr
+      rw [← sB] at this
+      simpa [subIsoB] using this
+    have hsome : ∀ vs fin, r = some (vs, fin) → fin = true ∧ vs.Perm (subIsoAll P) := by
+      intro vs fin hr
+      obtain ⟨hnd, hmem⟩ := hi.2 vs fin hr
+      refine ⟨((C13_vf2_iter_checked I hs fuel r h).2 vs fin hr).1, ?_⟩
+      rw [List.perm_ext_iff_of_nodup hnd (nodup_subIsoAll P L.wf1.1)]
+      intro v
+      rw [hmem v, L.mem_subIsoAll v]
+    refine ⟨hnone, hsome, ?_⟩
+    cases r with
+    | none => simp [judgeIter, hnone rfl]
+    | some x =>
+      obtain ⟨vs, fin⟩ := x
+      have pm := (hsome vs fin rfl).2
+      simp only [Option.map_some, judgeIter, sameMultisetB, Bool.and_eq_true, beq_iff_eq, List.all_eq_true,
+        List.contains_iff_mem]
+      exact ⟨⟨pm.length_eq, fun x hx => pm.symm.subset hx⟩, fun x hx => pm.subset hx⟩
+
+end Checks
+
 /-! ### a non-trivial instance: the hypotheses are satisfiable and the oracle computes -/
 
 /-- directed 3-cycle with a pendant arc vs. a relabeled copy with one extra node -/
@@ -840,5 +1226,49 @@ def exEmpty : Vf2.Inst :=
     nm := fun _ _ => true, em := fun _ _ => true, semantic := false }
 example : Vf2.iterModel exEmpty = some ([[]], true) ∧ Vf2.subModel exEmpty = true ∧ Vf2.isoModel exEmpty = false := by
   decide
+
+/-! wave 4: the run-time checks and the reporting wrappers on the examples -/
+
+/-- all side conditions hold on the example, and the reporting wrappers answer -/
+example : Vf2.sideFail exI = none ∧ Vf2.sideFail exI' = none ∧ Vf2.sideFail exEmpty = none := by decide
+example : Vf2.iterModelR exI Vf2.bigFuel = some (some ([[2, 0, 3]], true)) ∧
+    Vf2.subModelR exI Vf2.bigFuel = some true ∧ Vf2.isoModelR exI Vf2.bigFuel = some false := by decide
+/-- FUEL is reported (a call that needs more than 20 loop iterations), whereas the non-reporting wrappers turn
+the exhausted call into an answer: `false` / "no mapping, iterator ended" — both wrong here -/
+example : Vf2.iterModelR exI 20 = none ∧ Vf2.subModelR exI 20 = none ∧
+    Vf2.iterModelF exI 20 = some ([], true) ∧ Vf2.subModelF exI 20 = false := by decide
+/-- the side-condition check fires on the two counterexamples to the unconditioned completeness statement -/
+example : (Vf2.sideFail exBadEcount).isSome = true ∧ (Vf2.sideFail exDupIn).isSome = true := by decide
+/-- the hypotheses of `C13_vf2_relabel_invariant_checked` are satisfiable (non-identity relabeling) -/
+example : ∀ res res', Vf2.iterModelR exI Vf2.bigFuel = some res → Vf2.iterModelR exI' 1000 = some res' →
+    (res' = none ↔ res = none) ∧ ∀ vs fin vs' fin', res = some (vs, fin) → res' = some (vs', fin') →
+      vs'.Perm vs ∧ fin = true ∧ fin' = true :=
+  (C13_vf2_relabel_invariant_checked exI exI' (by decide) (by decide) id id exSw exSw exI'_relabeled
+    Vf2.bigFuel 1000).2.2
+example : Vf2.iterModelR exI' 1000 = some (some ([[2, 0, 3]], true)) := by decide
+
+/-- an ASYMMETRIC compatibility relation (`≤`): the pattern of `exI` with all edge weights 0 matches under
+`w0 ≤ w1` but not under `w1 ≤ w0` (nor under equality) — the `_matching` theorems cover both -/
+def exLe (em : Int → Int → Bool) : Vf2.Inst :=
+  { exI with g0 := { exI.g0 with outE := [[(1, 0)], [(2, 0)], [(0, 0)]] }, em := em }
+example : Vf2.sideFail (exLe fun a b => decide (a ≤ b)) = none ∧
+    Vf2.subModelR (exLe fun a b => decide (a ≤ b)) Vf2.bigFuel = some true ∧
+    Vf2.subModelR (exLe fun a b => decide (b ≤ a)) Vf2.bigFuel = some false ∧
+    Vf2.subModelR (exLe fun a b => a == b) Vf2.bigFuel = some false := by decide
+example : ∃ mp, Vf2.Final (exLe fun a b => decide (a ≤ b)) mp :=
+  ((C13_vf2_matching_exact _ (by decide) Vf2.bigFuel).1 true (by decide)).mp rfl
+
+/-- the link hypotheses are satisfiable: `exI` is an encoding of `exP` (index labeling of g1: 0↦2, 1↦0, 2↦3, 3↦1) -/
+example : Vf2.linkFail exI exP = none := by decide
+theorem exLink : Vf2.Link exI exP :=
+  ⟨Vf2.cgOkB_sound (by decide), Vf2.cgOkB_sound (by decide), rfl, by decide, by decide,
+   Vf2.linkGraphB_sound (by decide), Vf2.linkGraphB_sound (by decide), by decide, by decide,
+   fun _ _ => rfl, fun _ _ => rfl⟩
+/-- … and the model's reported vectors are the oracle's list, as `C13_checked_model_eq_oracle` says -/
+example : ∀ vs fin, Vf2.iterModelR exI Vf2.bigFuel = some (some (vs, fin)) → fin = true ∧ vs.Perm (subIsoAll exP) :=
+  fun vs fin h => ((C13_checked_model_eq_oracle exI exP (by decide) exLink Vf2.bigFuel).2.2 _ h).2.1 vs fin rfl
+/-- the link check fires when the concrete target carries another edge weight than the abstract one -/
+example : (Vf2.linkFail { exI with g1 := { exI.g1 with outE := [[], [(3, 0), (0, 0)], [(1, 0)], [(2, 1)]] } } exP).isSome
+    = true := by decide
 
 end PetgraphModel.C13T
